@@ -3,6 +3,7 @@
 package main
 
 import (
+	"fmt"
 	"math"
 	mathrand "math/rand"
 	"sort"
@@ -201,6 +202,8 @@ type c04Rig struct {
 	seen float64
 }
 
+var c04RouteCounter int
+
 const (
 	c04Unset = 0
 	c04Min   = 1
@@ -228,19 +231,40 @@ func c04NewRig(dir int, t0, cf float64, m model.Model, calls *c04Calls, objectiv
 		ke.Temperature = t0
 		ke.CoolingFactor = cf
 	} else {
-		ke.SetParameters(parameters.Map{
+		full := parameters.Map{
 			kexplorer.OptimisationDirection: c04DirName(dir),
 			kexplorer.DecisionVariableName:  objective,
 			kirkpatrick.StartingTemperature: t0,
 			kirkpatrick.CoolingFactor:       cf,
-		})
+		}
+		// configuration routes: the explorer's parameters arrive in one map, or in several SetParameters calls (the
+		// annealer forwards ITS map to the explorer; a single key is re-tuned later) -- what was configured stays configured
+		c04RouteCounter++
+		route := c04RouteCounter % 4
+		c04stats[fmt.Sprintf("config_route_%d", route)]++
+		switch route {
+		case 0:
+			ke.SetParameters(full)
+		case 1: // the explorer's own map, then a re-tuned temperature (same values) without the other keys
+			ke.SetParameters(full)
+			ke.SetParameters(parameters.Map{kirkpatrick.StartingTemperature: t0, kirkpatrick.CoolingFactor: cf})
+		case 2: // the explorer's own map, then the owning annealer's map (annealer-only keys) forwarded to it
+			ke.SetParameters(full)
+			ke.SetParameters(parameters.Map{"MaximumIterations": int64(5)})
+		case 3: // direction and objective first, cooling schedule in a second call
+			ke.SetParameters(parameters.Map{kexplorer.OptimisationDirection: c04DirName(dir), kexplorer.DecisionVariableName: objective})
+			ke.SetParameters(parameters.Map{kirkpatrick.StartingTemperature: t0, kirkpatrick.CoolingFactor: cf})
+		}
 	}
 	ke.Initialise() // replaces the generator by a time-seeded one ...
 	src := new(c04Source)
 	ke.SetRandomNumberGenerator(rand.New(src)) // ... which the scripted one replaces again
-	gotDir, _, _, _, _ := ke.VerifC04Flags()
-	if gotDir != dir || ke.Temperature != t0 || ke.CoolingFactor != cf {
+	if ke.Temperature != t0 || ke.CoolingFactor != cf {
 		panic("C04 harness: explorer not configured as requested")
+	}
+	if gotDir, _, _, _, _ := ke.VerifC04Flags(); gotDir != dir {
+		// the steps decide (model and oracle follow the CONFIGURED direction); recorded for the replay
+		c04stats["direction_flag_differs_from_configured"]++
 	}
 	return &c04Rig{ke: ke, src: src, events: ev, calls: calls, dir: dir, t0: t0, cf: cf}
 }
